@@ -13,6 +13,7 @@ from vlib import hx
 from django.db import models
 
 from django_evolution.db.state import DatabaseState
+from django_evolution.errors import MissingSignatureError
 from django_evolution.evolve.purge_app_task import PurgeAppTask
 from django_evolution.mutations import DeleteApplication, DeleteModel
 from django_evolution.mutators import AppMutator
@@ -21,7 +22,7 @@ from django_evolution.signature import (AppSignature, FieldSignature, ModelSigna
 from django_evolution.utils.sql import SQLExecutor
 
 LABELS = ['t', 'ta', 'tab']
-CUSTOM = [None, 'ta_m', 't_m_rel', 'zz']     # custom names collide with default names of others
+CUSTOM = [None, 'ta_m', 't_m_rel', 'zz', 'zz_old']     # custom names collide with default names of others; one custom name is a prefix of another (model table vs many-to-many table, either way round)
 
 
 def _model(name, table, fields):
@@ -69,7 +70,7 @@ def _project(l0, l1, ct, cm2m, cross, n_first=False, two_m2m=False):
 
 
 def _names_ok(l0, l1, ct, cm2m):
-    if not (0 <= l0 <= 2 and 0 <= l1 <= 2 and l0 != l1 and 0 <= ct <= 3 and 0 <= cm2m <= 3):
+    if not (0 <= l0 <= 2 and 0 <= l1 <= 2 and l0 != l1 and 0 <= ct <= 4 and 0 <= cm2m <= 4):
         return False
     return True
 
@@ -92,12 +93,16 @@ def _flat(sql):
 
 
 def h_purge(l0: int, l1: int, ct: int, cm2m: int, cross: bool, which: int, n_first: bool,
-            two_m2m: bool) -> bool:
-    """PurgeAppTask.prepare for app `which`.
+            two_m2m: bool, gone: bool) -> bool:
+    """PurgeAppTask.prepare for app `which`. With `gone`, the other app (which a relation of the
+    purged app points into) has already been purged from the signature earlier in the same run:
+    the purge is then either refused with MissingSignatureError (what the tree does, the same
+    family as the known finding c15-purge-earlier-model) or must still be exact - it must never
+    quietly drop less than the app owns while its signature entries disappear.
 
     pre: _names_ok(l0, l1, ct, cm2m) and 0 <= which <= 1
     pre: hx.in_part(l0, l1)
-    pre: not hx.excluded(l0, l1, ct, cm2m, cross, which, n_first, two_m2m)
+    pre: not hx.excluded(l0, l1, ct, cm2m, cross, which, n_first, two_m2m, gone)
     pre: not (hx.kf('c15_purge_relation_to_earlier_model') and which == 0 and not n_first)
     post: _
     """
@@ -107,9 +112,18 @@ def h_purge(l0: int, l1: int, ct: int, cm2m: int, cross: bool, which: int, n_fir
         return hx.verdict(True, False)
     other = 1 - which
     before_other = proj.get_app_sig(labels[other]).serialize()
+    if gone:
+        if not ((which == 0 and two_m2m) or (which == 1 and cross)):
+            return hx.verdict(True, False)
+        proj.remove_app_sig(labels[other])
     ev = _Evolver(proj)
     task = PurgeAppTask(ev, labels[which])
-    task.prepare()
+    try:
+        task.prepare()
+    except MissingSignatureError:
+        if gone:
+            return hx.verdict(True, False)
+        raise
     stmts = _flat(task.sql)
     want = sorted('DROP TABLE "%s";' % t for ts in tables[which].values() for t in ts)
     ok = sorted(stmts) == want
@@ -117,7 +131,10 @@ def h_purge(l0: int, l1: int, ct: int, cm2m: int, cross: bool, which: int, n_fir
     app = proj.get_app_sig(labels[which])
     ok = ok and (app is None or app.is_empty())
     o = proj.get_app_sig(labels[other])
-    ok = ok and o is not None and o.serialize() == before_other
+    if gone:
+        ok = ok and o is None
+    else:
+        ok = ok and o is not None and o.serialize() == before_other
     return hx.verdict(ok, True)
 
 
